@@ -101,6 +101,16 @@ func specRowsHeaderOK(ev binlogEvent, f BinlogFormat, tm *TableMap) bool {
 		return false
 	}
 	cc := specRowsColumnCount(d, f, typ)
+	// the columns-present bitmaps lie inside the body (stated in the form the decoder needs it: one bitmap after
+	// the other)
+	bp := specRowsBitmapsPos(d, f, typ)
+	nb := specBitmapBytes(cc)
+	if bp < 0 || bp > len(d) || len(d)-bp < nb {
+		return false
+	}
+	if specRowsHasIdentify(typ) && specRowsHasData(typ) && (bp+nb > len(d) || len(d)-(bp+nb) < nb) {
+		return false
+	}
 	return specRowsFirstRow(d, f, typ) <= len(d) && len(tm.Types) == cc && len(tm.Metadata) == cc
 }
 
